@@ -9,6 +9,7 @@ import (
 	"verif/harness/internal/devx"
 	"verif/harness/internal/ev"
 	"verif/harness/internal/msg"
+	"verif/harness/internal/obs"
 	"verif/harness/internal/world"
 	"verif/harness/internal/xt"
 )
@@ -23,25 +24,38 @@ var c16EndToEnd = func(run *ev.Run) {
 		Shapes    []int  `json:"shapes"`
 		Requested string `json:"requested"`
 		Transport string `json:"transport"`
+		Persist   string `json:"persist"`
 	}
 	var cases []c
 	for _, rq := range c16Requested {
 		for _, tr := range []string{"redirect", "post"} {
 			for a := 0; a < 100; a++ {
-				cases = append(cases, c{[]int{a}, rq, tr})
+				cases = append(cases, c{[]int{a}, rq, tr, ""})
 				for b := 0; b < 100; b++ {
-					cases = append(cases, c{[]int{a, b}, rq, tr})
+					cases = append(cases, c{[]int{a, b}, rq, tr, ""})
 				}
+			}
+		}
+	}
+	// the same with a storage that refuses the request (first CreateAuthRequest call fails): whatever the handler does then
+	// - error reply, retry - every pair it hands to storage and the target of its reply is still the documented choice
+	nHealthy := len(cases)
+	for _, pf := range []string{world.FaultError, world.FaultCtxDeadline, world.FaultCtxCanceled} {
+		for i := 0; i < nHealthy; i++ {
+			cs := cases[i]
+			if cs.Transport == "redirect" || pf == world.FaultError {
+				cs.Persist = pf
+				cases = append(cases, cs)
 			}
 		}
 	}
 	deadline := devx.Deadline(5 * time.Minute)
 	n, complete := parallel(len(cases), deadline, func(i int) {
 		cs := cases[i]
-		class, clause, labels, detail := c16E2EOne(cs.Shapes, cs.Requested, cs.Transport)
+		class, clause, labels, detail := c16E2EOne(cs.Shapes, cs.Requested, cs.Transport, cs.Persist)
 		run.OutcomeN(class, 1)
 		if clause != "" {
-			run.Violate(clause, "ssoHandleFunc", labels, detail, c16Case{Shapes: cs.Shapes, Requested: cs.Requested, Transport: cs.Transport})
+			run.Violate(clause, "ssoHandleFunc", labels, detail, c16Case{Shapes: cs.Shapes, Requested: cs.Requested, Transport: cs.Transport, Persist: cs.Persist})
 		}
 	})
 	run.Evaluations.Add(n)
@@ -55,7 +69,7 @@ var c16EndToEnd = func(run *ev.Run) {
 }
 
 // c16E2EOne drives one (list, requested binding, transport) through the real SSO handler.
-func c16E2EOne(shapes []int, requested, transport string) (class, clause string, labels []string, detail map[string]any) {
+func c16E2EOne(shapes []int, requested, transport, persist string) (class, clause string, labels []string, detail map[string]any) {
 	list := make([]md.IndexedEndpointType, len(shapes))
 	a := msg.SPA()
 	a.ACS = nil
@@ -70,6 +84,9 @@ func c16E2EOne(shapes []int, requested, transport string) (class, clause string,
 	if _, err := w.Store.RegisterSP("app-a", a.XML()); err != nil {
 		panic(err)
 	}
+	if persist != "" {
+		w.Store.FaultAt("CreateAuthRequest", 1, persist)
+	}
 	doc := msg.Authn(msg.AuthnOpts{Issuer: a.EntityID, Destination: w.Cfg.SSOLocation(""), ProtocolBinding: requested}).Render(xt.Style{})
 	var rep *world.Reply
 	if transport == "redirect" {
@@ -83,6 +100,43 @@ func c16E2EOne(shapes []int, requested, transport string) (class, clause string,
 		labels = append(labels, "requested=absent")
 	}
 	create := world.FindCall(rep.Calls, "CreateAuthRequest")
+	if persist != "" {
+		labels = append(labels, "persist="+persist)
+		if rep.Panic != "" {
+			return "e2e-persist-fails:blocked_by_panic", "", labels, nil
+		}
+		documented := func(loc, binding string) bool {
+			for _, p := range okPos {
+				if list[p].Location == loc && list[p].Binding == binding {
+					return true
+				}
+			}
+			return false
+		}
+		for _, c := range rep.Calls {
+			if c.Op == "CreateAuthRequest" && !documented(c.Args[1], c.Args[2]) {
+				return "e2e-persist-fails", "e2e-persisted-pair-is-not-the-documented-choice", labels, map[string]any{"list": list, "requested": requested, "handed-to-storage": c.Args[1:3]}
+			}
+		}
+		m := obs.Decode(rep)
+		switch m.Kind {
+		case obs.KindForm, obs.KindRedirect:
+			b := msg.BindPost
+			if m.Kind == obs.KindRedirect {
+				b = msg.BindRedirect
+			}
+			hit := false
+			for _, p := range okPos {
+				if list[p].Binding == b && sameTarget(m.Target, list[p].Location) {
+					hit = true
+				}
+			}
+			if !hit {
+				return "e2e-persist-fails", "e2e-error-reply-goes-to-an-endpoint-that-is-not-the-documented-choice", labels, map[string]any{"list": list, "requested": requested, "target": m.Target, "kind": m.Kind}
+			}
+		}
+		return "e2e-persist-fails:" + m.Kind, "", labels, nil
+	}
 	allSupported := true
 	for _, p := range okPos {
 		if b := list[p].Binding; b != msg.BindPost && b != msg.BindRedirect {
